@@ -24,6 +24,8 @@ TABLES = {
                   cols=[("chromosome", "id"), ("start", "int"), ("stop", "int"), ("name", "id"), ("score", "int"), ("strand", "strand"),
                         ("thick_start", "int"), ("thick_end", "int"), ("item_rgb", "str"), ("block_count", "int"),
                         ("block_sizes", "ilist"), ("block_starts", "ilist")]),
+    "bedgraph": dict(dc=("bionumpy.datatypes", "BedGraph"), buf=("bionumpy.io.delimited_buffers", "BdgBuffer"),
+                     cols=[("chromosome", "id"), ("start", "int"), ("stop", "int"), ("value", "fconst")]),
     "fasta2": dict(dc=("bionumpy.datatypes", "SequenceEntry"), buf=("bionumpy.io.one_line_buffer", "TwoLineFastaBuffer"),
                    cols=[("name", "id"), ("sequence", "str")]),
     "mfasta": dict(dc=("bionumpy.datatypes", "SequenceEntry"), buf=("bionumpy.io.multiline_buffer", "MultiLineFastaBuffer"),
@@ -46,8 +48,10 @@ def declare_table(V, skel):
         for c, w in enumerate(widths):
             kind = cols[c][1]
             if kind == "int":
-                lo, hi = skel.get("int_range", [0, 12])
+                lo, hi = skel["big_range"] if skel.get("big_col") == c else skel.get("int_range", [0, 12])
                 V.int(f"t{r}_{c}", lo, hi)
+            elif kind == "fconst":                     # concrete doubles given by the skeleton (float text is made by Python's str())
+                pass
             elif kind == "strand":
                 V.int(f"t{r}_{c}", 0, 2)
             elif kind == "ilist":                      # w = number of elements of the list
@@ -75,6 +79,8 @@ def build_table(ctx, skel, x, rows=None):
             cols[nm] = ctx.arr([x[f"t{r}_{c}"] for r in rows], "int64")
         elif kind == "strand":
             cols[nm] = EncodedArray(ctx.arr([x[f"t{r}_{c}"] for r in rows], "uint8"), StrandEncoding)
+        elif kind == "fconst":
+            cols[nm] = ctx.arr([float(skel["floats"][r]) for r in rows], "float64")
         elif kind == "ilist":
             flat = [x[f"t{r}_{c}_{j}"] for r in rows for j in range(skel["rows"][r][c])]
             cols[nm] = RaggedArray(ctx.arr(flat, "int64"), [skel["rows"][r][c] for r in rows])
@@ -94,6 +100,15 @@ def buffer_type(skel):
             n_characters_per_line = skel["width"]
         return Wrapped
     return B
+
+
+def _close(got, want):
+    """float read back: equal to the written double up to a relative 1e-12 (accuracy in ulps is outside the claim, DESIGN 8.1)"""
+    try:
+        got, want = float(got), float(want)
+    except Exception:
+        return False
+    return got == want or abs(got - want) <= 1e-12 * abs(want)
 
 
 def partition(rows, cuts):
@@ -117,7 +132,8 @@ class Write(Harness):
                        "one table object, which is then written once more",
               "thorough": "every split of the rows; integer cells in [-10^4, 10^4] (tables with <= 2 integer cells), [-1200, 1200] (<= 4), "
                           "[0, 120] (more); longer wrapped sequences"}
-    assumptions = ("float columns (bedGraph, narrowPeak) are not covered: float_to_strings formats with Python str()",
+    assumptions = ("float columns: concrete doubles per skeleton (float_to_strings formats with Python's str(), a symbolic double cannot pass "
+                   "through it); the value read back is compared up to a relative 1e-12",
                    "gzip targets and append mode to an existing file are not covered (file object contract only)")
 
     def skeletons(self, tier, seed):
@@ -156,6 +172,17 @@ class Write(Harness):
                     out.append(sk)
         # a short first record followed by a much wider integer (read-back through the right-aligned digit windows)
         out.append(dict(table="bed3", rows=[[1, 0, 0], [1, 0, 0]], cuts=[], int_range=[0, 1200]))
+        # one integer column in narrow windows of LARGE magnitude (around 2^53, at the top of int64, around 10^17: the digit count changes
+        # inside the window), written and read back; the members of each path at the ends of the ranges are also run on the real code
+        # (effects outside the integer model, e.g. a float detour).  The whole int64 range at once is beyond the solver for this composition.
+        out.append(dict(table="bed3", rows=[[1, 0, 0]], cuts=[], big_col=2, big_range=[2 ** 53 - 6, 2 ** 53 + 6], boundary_witnesses=True))
+        out.append(dict(table="bed3", rows=[[1, 0, 0]], cuts=[], big_col=2, big_range=[2 ** 63 - 12, 2 ** 63 - 1], boundary_witnesses=True))
+        out.append(dict(table="chromsizes", rows=[[1, 0], [2, 0]], cuts=[], big_col=1, big_range=[10 ** 17 - 6, 10 ** 17 + 6], boundary_witnesses=True))
+        # float column (bedGraph): concrete doubles whose text takes every shape str() produces (plain decimals, negative, exponent with
+        # '-' and with '+', integers-valued), symbolic integer columns; whole, in pieces, read back
+        for floats in ([0.5, 2.5e-07, 1e16], [-3.25, 1e+22, 120.0], [1.5e-300, -7e+300, 0.0]):
+            for cuts in ((), (1,)) + (((1, 2), (0,)) if tier == "thorough" else ()):
+                out.append(dict(table="bedgraph", rows=[[1, 0, 0, 0]] * 3, floats=floats, cuts=list(cuts), int_range=[0, 12]))
         for w in (2, 3):
             for lens in ([w - 1], [w], [w + 1], [2 * w, 1], [w, w + 1, 2 * w - 1]) + (([3 * w], [2 * w + 1, w]) if tier == "thorough" else ()):
                 rows = [[1, L] for L in lens if L > 0]
@@ -189,7 +216,8 @@ class Write(Harness):
         if n:
             back = NpDataclassReader(NumpyFileReader(ctx.file(single), B), lazy=False).read()
             cols = TABLES[skel["table"]]["cols"]
-            res["back"] = {nm: (ctx.lst(getattr(back, nm).raw()) if kind in ("id", "strand") else ctx.lst(getattr(back, nm))) for nm, kind in cols}
+            res["back"] = {nm: (ctx.lst(getattr(back, nm).raw()) if kind in ("id", "strand") else
+                                ([float(v) for v in ctx.lst(getattr(back, nm))] if kind == "fconst" else ctx.lst(getattr(back, nm)))) for nm, kind in cols}
             res["n_back"] = len(back)
         return res
 
@@ -220,6 +248,8 @@ class Write(Harness):
                     row.append(("strand", g(f"t{r}_{c}")))
                 elif kind == "ilist":
                     row.append(("ilist", cell(c)))
+                elif kind == "fconst":
+                    row.append(("text", list(str(float(skel["floats"][r])).encode())))      # float text is Python's shortest round-trip repr
                 else:
                     row.append(("text", cell(c)))
             lines.append(row)
@@ -301,7 +331,10 @@ class Write(Harness):
                 if len(col) != n:
                     return False
                 for r in range(n):
-                    if kind in ("int", "strand"):
+                    if kind == "fconst":
+                        if not _close(col[r], skel["floats"][r]):
+                            return False
+                    elif kind in ("int", "strand"):
                         conj.append(TI(col[r]) == x[f"t{r}_{c}"].t)
                     else:
                         w = skel["rows"][r][c]
@@ -337,6 +370,10 @@ class Write(Harness):
             n = len(skel["rows"])
             for c, (nm, kind) in enumerate(TABLES[skel["table"]]["cols"]):
                 for r in range(n):
+                    if kind == "fconst":
+                        if cout["n_back"] != n or not _close(cout["back"][nm][r], skel["floats"][r]):
+                            return f"reading back {bytes(cout['single'])!r}: column {nm} row {r} = {cout['back'][nm][r] if cout['n_back']==n else None}, written value {skel['floats'][r]!r}"
+                        continue
                     e = cx[f"t{r}_{c}"] if kind in ("int", "strand") else [cx[f"t{r}_{c}_{j}"] for j in range(skel["rows"][r][c])]
                     if cout["n_back"] != n or cout["back"][nm][r] != e:
                         return f"reading back {bytes(cout['single'])!r}: column {nm} row {r} = {cout['back'][nm][r] if cout['n_back']==n else None}, written value {e}"
